@@ -1,0 +1,16 @@
+//go:build verif
+
+// Machine-checked contracts for package xpath (comment-only; read by /verif/gocv).
+
+package xpath
+
+// The engine's locator table exists from construction on (SetItemAwareLocator writes into it).
+//@ type XPath
+//@   field itemAwareLocators nonnil
+
+// Make creates the table; New stores that engine.
+//@ func Make
+//@   prop C17 C04
+//@   modifies nothing
+//@   flag emits none
+//@   ensures [the-locator-table-is-created-with-the-engine] result.itemAwareLocators != nil
